@@ -89,6 +89,10 @@ impl<F: FixedChannelRegion> FixedChannelPlan<F> {
 }
 
 pub(crate) trait FixedChannelRegion: ChannelRegion {
+    /// Data rate mandated for join requests on the 125 kHz channels (0..=63)
+    const JOIN_DR_125KHZ: DR;
+    /// Data rate mandated for join requests on the 500 kHz channels (64..=71)
+    const JOIN_DR_500KHZ: DR;
     fn uplink_channels() -> &'static [u32; 72];
     fn downlink_channels() -> &'static [u32; 8];
     fn get_rx_datarate(tx_dr: DR, rx1_dr_offset: u8, window: &Window) -> DR;
@@ -182,9 +186,9 @@ impl<F: FixedChannelRegion> RegionHandler for FixedChannelPlan<F> {
             Frame::Join => {
                 let channel = self.join_channels.get_next_channel(rng);
                 let dr = if channel < 64 {
-                    DR::_0
+                    F::JOIN_DR_125KHZ
                 } else {
-                    DR::_4
+                    F::JOIN_DR_500KHZ
                 };
                 (dr, channel)
             }
@@ -196,9 +200,9 @@ impl<F: FixedChannelRegion> RegionHandler for FixedChannelPlan<F> {
                 if self.join_channels.has_bias_and_not_exhausted() {
                     let channel = self.join_channels.get_next_channel(rng);
                     let dr = if channel < 64 {
-                        DR::_0
+                        F::JOIN_DR_125KHZ
                     } else {
-                        DR::_4
+                        F::JOIN_DR_500KHZ
                     };
                     (dr, channel)
                 // Alternatively, we will ask JoinChannel logic to determine a channel from the
